@@ -4,7 +4,8 @@ any alarm is a false alarm of the machinery."""
 import json, os, subprocess, sys, tempfile, shutil, glob, concurrent.futures as cf
 env = dict(os.environ, GOFLAGS="-mod=mod", GOPROXY="off", GOSUMDB="off", GOTOOLCHAIN="local", CGO_ENABLED="0"); env.pop("GOWORK", None)
 props = [c['property_id'] for c in json.load(open('/verif/MANIFEST.json'))['checks']]
-patches = sorted(sys.argv[1:] or glob.glob('/verif/benign/*/patch.diff'))
+if os.environ.get('PROPS'): props = os.environ['PROPS'].split(',')
+patches = sorted([os.path.abspath(x) for x in sys.argv[1:]] or glob.glob('/verif/benign/*/patch.diff'))
 def run(patch):
     d = tempfile.mkdtemp(prefix="rm."); out = []
     try:
